@@ -139,7 +139,10 @@ WIDTHS = ("unset", "zero", "positive")
 
 def rho_spec(me, cls, polar):
     R = pt.radius_of(me)
-    ang = polar["angles"]
+    ang = polar.get("angles") or []
+    need = {"PerturbedDroplet2D": 1, "PerturbedDroplet3D": 2, "PerturbedDroplet3DAxisSym": 1}.get(cls, 0)
+    if len(ang) < need:
+        return None        # the direction of the cell was never asked for: the shape cannot have been evaluated in it
     if cls == "PerturbedDroplet2D":
         return R * (1 + pt.PS2(pt.npairs(me), ang[0]))
     if cls == "PerturbedDroplet3D":
@@ -219,6 +222,9 @@ class GetPhaseField(RenderBase):
         v = to_real(ret.data.v)
         delta = polar["dist"]
         rho = rho_spec(me, case["cls"], polar)
+        if rho is None:
+            return out + [("a perturbed droplet is rendered by comparing the cell's distance with the interface distance IN THE DIRECTION OF THE CELL "
+                           "(the angles of the cell are requested from polar_coordinates) - whatever the values of the amplitudes", False)]
         sharp = case["cls"] == "SphericalDroplet" or case["width"] == "zero"
         w = None if case["cls"] == "SphericalDroplet" else self.width_of(me, grid, case)
         if sharp:
@@ -361,6 +367,10 @@ def render_check(case, inputs, roll=True):
         width = dict(unset=None, zero=0.0, positive=float(inputs.get("width", 1.0))).get(case["width"])
         n = int(inputs.get("modes", 3))
         amps = rng.uniform(-0.2, 0.2, n)
+        if n >= 2 and int(inputs.get("shift", 0)) % 2 == 0:
+            # non-zero amplitudes that cancel exactly (sum == 0), with a leading zero: still a perturbed shape
+            amps = np.zeros(n)
+            amps[-2:] = [0.25, -0.25]
         R = float(inputs.get("radius", 2.0))
         try:
             if cls == "SphericalDroplet":
@@ -449,6 +459,9 @@ class BinaryImage(RenderBase):
         if polar is None or not isinstance(ret, SCell) or ret.kind != "bool":
             return [("returns a boolean array built from the cell distances", False)]
         rho = rho_spec(a["self"], case["cls"], polar)
+        if rho is None:
+            return [("a perturbed droplet is rendered by comparing the cell's distance with the interface distance IN THE DIRECTION OF THE CELL "
+                     "(the angles of the cell are requested from polar_coordinates) - whatever the values of the amplitudes", False)]
         v = ret.v if isinstance(ret.v, z3.ExprRef) else z3.BoolVal(bool(ret.v))
         return profile_clauses(v, polar["dist"], rho, None, True, boolean=True)
 
